@@ -3,12 +3,13 @@ mod core;
 mod driver;
 mod enc;
 mod c09;
+mod c10;
 
 use crate::core::{Prop, Tier};
 use std::path::Path;
 
 pub fn props() -> Vec<&'static dyn Prop> {
-    vec![&c09::C09]
+    vec![&c09::C09, &c10::C10]
 }
 
 pub fn find(id: &str) -> Option<&'static dyn Prop> {
